@@ -1,0 +1,79 @@
+//go:build verif
+
+package goja
+
+// White-box accessors for the C09 check (generator suspend/resume offset rebasing).
+// Add-only; compiled only with -tags verif.
+
+// VerifC09Frame is the control part of a tryFrame (vm.go:47).
+type VerifC09Frame struct {
+	CallStackLen, IterLen, RefLen uint32
+	Sp                            int32
+	CatchPos, FinallyPos          int32
+}
+
+// VerifC09Dump describes either the live generator-owned part of the vm (Live) or the saved execCtx (Saved).
+type VerifC09Dump struct {
+	OK    bool
+	State int
+	// generator.{tryStackLen, iterStackLen, refStackLen} (func.go:755)
+	TryBase, IterBase, RefBase uint32
+	Frames                     []VerifC09Frame
+	// live vm: Sb is the sb of the JS frame that called the native function (top saved context),
+	// CallLen is len(vm.callStack) as seen by that JS frame (the native call's own pushCtx removed).
+	Sb, Sp, CallLen, IterLen, RefLen, TryLen int
+	// saved execCtx lengths
+	SavedStack, SavedIter, SavedRef int
+}
+
+func verifC09Gen(o *Object) *generatorObject {
+	if o == nil {
+		return nil
+	}
+	g, _ := o.self.(*generatorObject)
+	return g
+}
+
+func verifC09Frames(fs []tryFrame) []VerifC09Frame {
+	out := make([]VerifC09Frame, len(fs))
+	for i := range fs {
+		tf := &fs[i]
+		out[i] = VerifC09Frame{tf.callStackLen, tf.iterLen, tf.refLen, tf.sp, tf.catchPos, tf.finallyPos}
+	}
+	return out
+}
+
+// VerifC09Live must be called from a native function invoked directly by the running generator body.
+func VerifC09Live(r *Runtime, gen *Object) VerifC09Dump {
+	g := verifC09Gen(gen)
+	vm := r.vm
+	if g == nil || len(vm.callStack) == 0 || int(g.gen.tryStackLen) > len(vm.tryStack) {
+		return VerifC09Dump{}
+	}
+	d := VerifC09Dump{OK: true, State: int(g.state),
+		TryBase: g.gen.tryStackLen, IterBase: g.gen.iterStackLen, RefBase: g.gen.refStackLen,
+		Frames: verifC09Frames(vm.tryStack[g.gen.tryStackLen:]),
+		Sb:     vm.callStack[len(vm.callStack)-1].sb, Sp: vm.sp, CallLen: len(vm.callStack) - 1,
+		IterLen: len(vm.iterStack), RefLen: len(vm.refStack), TryLen: len(vm.tryStack),
+	}
+	return d
+}
+
+// VerifC09Saved reads the suspended generator's execCtx.
+func VerifC09Saved(gen *Object) VerifC09Dump {
+	g := verifC09Gen(gen)
+	if g == nil {
+		return VerifC09Dump{}
+	}
+	return VerifC09Dump{OK: true, State: int(g.state),
+		TryBase: g.gen.tryStackLen, IterBase: g.gen.iterStackLen, RefBase: g.gen.refStackLen,
+		Frames:     verifC09Frames(g.gen.ctx.tryStack),
+		SavedStack: len(g.gen.ctx.stack), SavedIter: len(g.gen.ctx.iterStack), SavedRef: len(g.gen.ctx.refStack),
+	}
+}
+
+// VerifC09VMLens returns the idle-state lengths of the vm's stacks (caller cleanliness).
+func VerifC09VMLens(r *Runtime) (sp, callLen, iterLen, refLen, tryLen int) {
+	vm := r.vm
+	return vm.sp, len(vm.callStack), len(vm.iterStack), len(vm.refStack), len(vm.tryStack)
+}
